@@ -230,6 +230,28 @@ theorem missing_next_handled_on_raw_input (env : Env) (fuel : Nat) (states : Jso
       handleErr env fuel states name state raw ctx retries (S "States.Runtime") (S "m") st := by
   simp [leave, hE, hN]
 
+/-- a terminal state (`End: true`) whose output is longer than the size limit: the same — the error
+goes to the state's handler with its raw input and unchanged retry count (`handle_terminal_state`; the
+join of a Parallel / Map that ends its scope) -/
+theorem terminal_output_over_limit_handled_on_raw_input (env : Env) (fuel : Nat) (states : Json) (name : Str)
+    (state raw out ctx : Json) (retries : Nat) (st : St)
+    (hE : isTrue (fld state "End") = true) (hL : (render out).length > env.maxData) :
+    leave env (fuel + 1) states name state raw out ctx retries st =
+      handleErr env fuel states name state raw ctx retries (S "States.DataLimitExceeded") (S "m") st := by
+  simp [leave, hE, hL]
+
+/-- … so a terminal state with a matching retrier is re-run on its raw input -/
+theorem terminal_output_over_limit_retried_on_raw_input (env : Env) (fuel : Nat) (states : Json) (name : Str)
+    (state raw out ctx : Json) (retries : Nat) (st : St) (d : Rat) (k : Nat)
+    (hE : isTrue (fld state "End") = true) (hL : (render out).length > env.maxData)
+    (h : decideError ((listOf (fld state "Retry")).map retrierOf) ((listOf (fld state "Catch")).map catcherOf)
+      (S "States.DataLimitExceeded") retries = .retry d k) :
+    leave env (fuel + 2) states name state raw out ctx retries st = runFrom env fuel states name raw ctx k st ∧
+      k = retries + 1 := by
+  rw [terminal_output_over_limit_handled_on_raw_input env (fuel + 1) states name state raw out ctx retries st hE hL]
+  exact ⟨retry_reruns_same_input env fuel states name state raw ctx retries _ _ st d k h,
+    (rerun_count_bounded _ _ _ _ _ _ h).1⟩
+
 /-- … and since `States.Runtime` is unrecoverable, a missing `Next` fails the scope whatever the
 state's Retry / Catch say -/
 theorem missing_next_fails (env : Env) (fuel : Nat) (states : Json) (name : Str)
@@ -411,6 +433,21 @@ again, caught, and `C` is entered with exactly `rawIn` — which is the executio
 example : (run envS 20 aslT rawIn (.obj [])).status = S "SUCCEEDED" ∧
     (run envS 20 aslT rawIn (.obj [])).output = some rawIn ∧
     (run envS 20 aslT rawIn (.obj [])).trace = [S "T", S "C"] := by decide +kernel
+/-- a terminal Task state with the same Retry (hypotheses of `terminal_output_over_limit_…`): refused at
+retry count 0, re-run on `rawIn` with count 1 -/
+private def tEnd : Json := .obj [
+  (S "Type", .str (S "Task")), (S "Resource", .str (S "arn:aws:rpcmessage:local::function:f")),
+  (S "ResultPath", .str (S "$.r")), (S "End", .bool true),
+  (S "Retry", .arr [.obj [(S "ErrorEquals", .arr [.str (S "States.DataLimitExceeded")]), (S "MaxAttempts", .num 1)]])]
+example (fuel : Nat) (states ctx : Json) (st : St) :
+    leave envS (fuel + 2) states (S "T") tEnd rawIn bigOut ctx 0 st = runFrom envS fuel states (S "T") rawIn ctx 1 st :=
+  (terminal_output_over_limit_retried_on_raw_input envS fuel states (S "T") tEnd rawIn bigOut ctx 0 st _ 1
+    (by rfl) hBig rfl).1
+/-- the whole run of the one-state machine: two attempts, then FAILED with States.DataLimitExceeded -/
+example : (run envS 20 (.obj [(S "StartAt", .str (S "T")), (S "States", .obj [(S "T", tEnd)])]) rawIn (.obj [])).status
+      = S "FAILED" ∧
+    (run envS 20 (.obj [(S "StartAt", .str (S "T")), (S "States", .obj [(S "T", tEnd)])]) rawIn (.obj [])).error
+      = some (S "States.DataLimitExceeded") := by decide +kernel
 /-- a missing `Next` (hypotheses of `missing_next_handled_on_raw_input` / `missing_next_fails`) -/
 example : isTrue (fld succeedSt "End") = false ∧ fldStr succeedSt "Next" = none := ⟨by rfl, by rfl⟩
 
